@@ -417,7 +417,7 @@ func (rec *ScanRecord) NodeForInstance(id string) *v1.Node {
 func (rec *ScanRecord) Describe(w *World) string {
 	var b strings.Builder
 	fmt.Fprintf(&b, "scan #%d epoch=%d restarted=%v synced=%v t0=%s err=%v panic=%v fatalExit=%v faultHits=%d\n", rec.Index, rec.Epoch, rec.Restarted, rec.Synced,
-		rec.T0.UTC().Format(time.RFC3339Nano), rec.Err, rec.Panic, rec.FatalExit, rec.FaultHits)
+		rec.T0.UTC().Format(time.RFC3339Nano), errText(rec.Err), rec.Panic, rec.FatalExit, rec.FaultHits)
 	if rec.View == nil {
 		fmt.Fprintf(&b, "  controller build failed: %v\n", rec.BuildErr)
 		return b.String()
